@@ -233,6 +233,17 @@ def run_step(c, rec):
         require(int(owner[j]) in want, "node assigned to a step other than the documented interval",
                 node=j, x=x, owner=int(owner[j]), want=sorted(want))
     require(np.allclose(np.asarray(G.par2fun(np.ones(k))), 1.0), "constant parameters do not give the constant function")
+    # the documented projections of a general function, with the arguments given in their documented order by position
+    gfun = np.cos(1.0 + 0.9 * np.arange(n)) * (1.0 + 0.1 * np.arange(n))
+    for proj, red in (("mean", np.mean), ("max", np.max), ("min", np.min)):
+        refused, Gp = refuses(lambda: cuqi.geometry.StepExpansion(grid, k, proj))
+        if refused:
+            rec.count("positional_construction_refused")
+            continue
+        gotp = np.asarray(Gp.fun2par(gfun.copy()), dtype=float)
+        wantp = np.array([red(gfun[owner == i]) for i in range(k)])
+        require(gotp.shape == wantp.shape and close(gotp, wantp, 1e-12), f"StepExpansion(grid, n_steps, '{proj}') (arguments by position, documented order): "
+                f"fun2par is not the {proj} of the function over each step", got=gotp, want=wantp)
     p = 1.0 + np.arange(k)
     back = np.asarray(G.fun2par(np.asarray(G.par2fun(p))))
     require(back.shape == p.shape and close(back, p, 1e-12), "fun2par(par2fun(p)) != p on this grid (a step owns no node?)",
